@@ -644,6 +644,14 @@ func (x *Exec) exitObligations(fr *Frame, st *State, rs []Val, oldSt *State, spe
 			x.curPos = x.retPos
 			x.oblige(st, "POST", "post("+name+")", g, "postcondition")
 		}
+		if ctr.HasMod {
+			ok, has := st.ghost["frameok"]
+			if !has {
+				ok = True
+			}
+			x.curPos = x.retPos
+			x.oblige(st, "FRAME", "frame(modifies clause respected)", ok, "a store on this path lies outside the declared modifies clause")
+		}
 	}
 	// every method re-establishes the object invariant of its receiver
 	if root := rootFn(fr.fn); root == fr.fn && root.Signature.Recv() != nil && len(fr.params) > 0 {
